@@ -1,5 +1,6 @@
 import JSight.TreeLen
 import JSight.ByteLemmas
+import JSight.EnumEvents
 /-!
 # C14 — Len reports exactly where an embedded JSON document ends
 
@@ -8,8 +9,10 @@ length from the event stream (`end-top` at the first foreign byte), then trailin
 For every valid JSON tree `v` with any layout, leading blanks `ws0`, separator blanks `w`, a foreign
 byte `x` that cannot continue the value and any `rest`: `Len = |ws0| + |render v|` — the length of the
 document as the grammar generates it, without trailing blanks. No bound on sizes.
-The schema and enum scanners' `Len` are validated against the code (and against the property) but not
-proved: see DESIGN.md §4 C14.
+`C14_enum_len`: the enum-rule scanner's `Length` (model `EnumScan.length`) of `ws [ items ] ws` is the offset
+just after the closing bracket, for every list of grammar tokens and any layout incl. line breaks.
+The schema scanner's `Len` is validated against the code (and against the property) but not proved: see
+DESIGN.md §4 C14.
 -/
 namespace Props.C14
 open JsonScan
@@ -69,5 +72,13 @@ example : lenOf " {\"a\": [1, true]}  \n GET /x" = some 17 := by decide +kernel
 example : lenOf "12x" = some 2 := by decide +kernel
 example : lenOf "{}x" = some 2 := by decide +kernel
 example : lenOf "{\"a\": x" = none := by decide +kernel
+
+open EnumScan in
+/-- `Len()` of an enum rule text: just after the closing bracket, trailing layout not counted -/
+theorem C14_enum_len (pre ws0 post : List UInt8) (items : List Item)
+    (hpre : IsWsB pre) (hws0 : IsWsB ws0) (hpost : IsWsB post) (hv : GValidItems items)
+    (hnd : (items.map itemKey).Nodup) :
+    EnumScan.length (renderEnum pre ws0 items post) = .ok (pre.length + 1 + ws0.length + (renderItems items).length) :=
+  enum_length pre ws0 post items hpre hws0 hpost hv hnd
 
 end Props.C14
